@@ -89,7 +89,7 @@ def getRequest : List UInt8 :=
    108, 111, 99, 97, 108, 104, 111, 115, 116, 13, 10, 65, 99, 99, 101, 112, 116, 58, 32, 42, 47, 42, 13, 10, 13, 10]
 
 def obsOf (s : String) : Option Obs :=
-  if s = "valid" then some .usable
+  if s = "valid" ∨ s = "validesc" then some .usable
   else if s = "invalid" ∨ s = "truncated" ∨ s = "closeearly" ∨ s = "refused" ∨ s = "absent" then some .unusable
   else none
 
